@@ -374,7 +374,7 @@ def validate_traces(ctx, module, traces, constants=None, name=None, spec='TraceS
         with open(fn, 'w') as f:
             json.dump(part, f, separators=(',', ':'), default=_jd)
         cfg = os.path.join(ctx.work, '%s-trace.cfg' % module)
-        write_cfg(cfg, spec=spec, postcondition='TraceAccepted', constants=constants, invariants=invariants)
+        write_cfg(cfg, spec=spec, constants=constants, invariants=invariants)
         res = run_tlc(ctx, module, cfg, env={'TRACE_FILE': fn}, workers=1,
                       name=(name or module) + ':traces', kind='trace', timeout=timeout)
         if res['error'] or res['rc'] not in (0, 1, 12, 13) or 'TRACESUMMARY' not in res['out']:
